@@ -358,6 +358,7 @@ func runC13(r *harness.Run) {
 	})
 	c13Interference(r, bound, &states, &transitions, &execs)
 	c13Payloads(r)
+	c13ProtoFamilies(r)
 	r.Extra["states"] = states
 	r.Extra["transitions"] = transitions
 	r.Extra["traces_validated_against_impl"] = execs
@@ -400,6 +401,7 @@ func c13PayloadsOn(r *harness.Run, withContext bool) {
 	ch := make(chan lua.LValue, 4)
 	L.SetGlobal("ch", lua.LChannel(ch))
 	L.SetGlobal("ud", L.NewUserData())
+	L.SetGlobal("idle", lua.LChannel(make(chan lua.LValue))) // never ready
 	cases := []struct {
 		name, expr string
 		ok         bool
@@ -408,13 +410,27 @@ func c13PayloadsOn(r *harness.Run, withContext bool) {
 		{"function", `function() end`, false}, {"host-function", `print`, false}, {"userdata", `ud`, false}, {"thread", `coroutine.create(function() end)`, false}, {"table-with-metatable", `setmetatable({}, {})`, false},
 	}
 	for _, c := range cases {
-		for _, via := range []string{"send", "select"} {
+		// every route by which a value can enter a channel: the send method and each form of a
+		// select send case (three elements, four elements with a handler; with and without a default
+		// case; as the only case and behind a receive case that is not ready)
+		for _, via := range []string{"send", "select", "select-handler", "select-nodefault", "select-handler-nodefault", "select-second", "select-handler-second"} {
 			before := len(ch)
 			var src string
-			if via == "send" {
+			switch via {
+			case "send":
 				src = fmt.Sprintf(`return pcall(function() ch:send(%s) end)`, c.expr)
-			} else {
+			case "select":
 				src = fmt.Sprintf(`return pcall(function() channel.select({"<-|", ch, %s}, {"default"}) end)`, c.expr)
+			case "select-handler":
+				src = fmt.Sprintf(`return pcall(function() channel.select({"<-|", ch, %s, function() end}, {"default"}) end)`, c.expr)
+			case "select-nodefault":
+				src = fmt.Sprintf(`return pcall(function() channel.select({"<-|", ch, %s}) end)`, c.expr)
+			case "select-handler-nodefault":
+				src = fmt.Sprintf(`return pcall(function() channel.select({"<-|", ch, %s, function() end}) end)`, c.expr)
+			case "select-second":
+				src = fmt.Sprintf(`return pcall(function() channel.select({"|<-", idle}, {"<-|", ch, %s}) end)`, c.expr)
+			case "select-handler-second":
+				src = fmt.Sprintf(`return pcall(function() channel.select({"|<-", idle, function() end}, {"<-|", ch, %s, function() end}, {"default", function() end}) end)`, c.expr)
 			}
 			if err := L.DoString(src); err != nil {
 				r.Violation("payload/"+c.name+"/"+via+tag+"/chunk-error", err.Error(), map[string]interface{}{"source": src})
@@ -452,22 +468,7 @@ emit(s .. c() .. c() .. mt.x .. #t .. ("ab"):rep(2):upper())
 var c13StepCtrl sync.Map // *lua.Global -> *sched.Controller
 var c13HookOnce sync.Once
 
-func c13ProtoDump(p *lua.FunctionProto) string {
-	var b strings.Builder
-	var walk func(p *lua.FunctionProto)
-	walk = func(p *lua.FunctionProto) {
-		fmt.Fprintf(&b, "%s|%d|%d|%d|%d|%v|%v|%v|%v|", p.SourceName, p.LineDefined, p.LastLineDefined, p.NumUpvalues, p.NumUsedRegisters, p.Code, p.Constants, p.VerifStringConstants(), p.DbgSourcePositions)
-		for _, l := range p.DbgLocals {
-			fmt.Fprintf(&b, "%s:%d:%d,", l.Name, l.StartPc, l.EndPc)
-		}
-		fmt.Fprintf(&b, "%v", p.DbgUpvalues)
-		for _, c := range p.FunctionPrototypes {
-			walk(c)
-		}
-	}
-	walk(p)
-	return b.String()
-}
+func c13ProtoDump(p *lua.FunctionProto) string { return lua.VerifProtoDump(p) }
 
 func c13Interference(r *harness.Run, bound int, states, transitions, execs *int64) {
 	chunk, err := parse.Parse(strings.NewReader(c13ComputeSrc), "shared")
